@@ -117,3 +117,18 @@ Definition raw_sentence (sg : signature) (args : list string) : option string :=
 
 Definition sentence_of (sg : signature) (args : list string) : expl :=
   match raw_sentence sg args with Some r => Sentence (cap_first r ++ ".") | None => NotModelled end.
+
+(* ------------------------------------------------------------------ facts of declared concepts: scope and closed form of the theorems in ExplainProofs.v *)
+Definition value_c (c : ascii) : bool := negb (is_space_c c) && negb (Ascii.eqb c ",").
+(* a printed value: not empty, no white space, no comma (numbers, identifiers, strings of word characters) *)
+Definition value_ok (v : string) : bool := match v with EmptyString => false | _ => sforall value_c v end.
+
+Definition fact_sig (e : xentity) : signature := {| sg_entity := e; sg_subjects := []; sg_verb := None; sg_objects := [] |}.
+Definition item_prefix (name : string) (a : xattr) : string := "with " ++ strip (removeprefix name (xattr_str a)) ++ " equal to ".
+Definition fact_body (name : string) (attrs : list xattr) : string :=
+  match attrs with [a] => x_value a | _ => join ", " (map (fun a => item_prefix name a ++ x_value a) attrs) end.
+
+(* a concept name as the sentence shows it: no leading white space or underscore (names are letter-initial identifiers) *)
+Definition name_ok (n : string) : bool :=
+  match n with String c _ => negb (is_space_c c) && negb (Ascii.eqb c "_") | EmptyString => false end.
+
